@@ -45,6 +45,27 @@ def families(tier, seed):
     for kind in ('U', '<>', '[]'):
         out.append(_c(f'until-tester {kind}', pn.h_until(kind)))
     out.append(_c('pass-through connectives', pn.h_passthrough()))
+    for left, right in (('TRUE', None), ('FALSE', None), (None, 'TRUE'), (None, 'FALSE'),
+                        ('TRUE', 'FALSE'), ('FALSE', 'TRUE')):
+        out.append(_c(f'_flatten_since constant operands {left} S {right}', pn.h_since_const(left, right)))
+    Lg = 4 if tier == 'quick' else 5
+    gen = pn.generated_formulas(tier)
+    chunk = 40
+    for i in range(0, len(gen), chunk):
+        part = gen[i:i + chunk]
+
+        def run(part=part):
+            acc = None
+            for fml in part:
+                r = pn.h_translate_e2e(fml, Lg)()
+                if acc is None:
+                    acc = r
+                    acc['bounded']['formula'] = f'{len(part)} generated formulas, first: {part[0]}'
+                else:
+                    acc['bounded']['evaluations'] += r['bounded']['evaluations']
+                    acc['bounded']['failures'] += r['bounded']['failures']
+            return acc
+        out.append(dict(name=f'translate e2e L={Lg} generated formulas {i}..{i + len(part) - 1}', run=run, label='bounded'))
     L = 5 if tier == 'quick' else 7
     for fml in pn.E2E:
         out.append(dict(name=f'translate e2e L={L} {fml}', run=pn.h_translate_e2e(fml, L), label='bounded'))
